@@ -32,51 +32,69 @@ func families() []family {
 	}
 }
 
+// Quick-tier core alphabets: one representative per behaviour class (the
+// thorough tier uses the full alphabets above).
+var (
+	objCore  = []string{"o.set1", "o.del1", "o.setobj1", "o.setin1", "o.setarr1", "o.pushin1", "o.delroot"}
+	arrCore  = []string{"a.push", "a.ins0", "a.delL", "a.del0", "a.mv0L", "a.mvFrontL", "a.mvLast0", "a.setL", "a.pushobj", "a.delroot"}
+	txtCore  = []string{"t.ins0", "t.insM", "t.insE", "t.delF", "t.delM", "t.repM", "t.styF", "t.styB", "t.insAttrM"}
+	cntCore  = []string{"c.inc1", "c.incmax", "c.inclong", "cl.incmax", "c.reset", "c.delroot"}
+	treeCore = []string{"tr.insT0", "tr.insT1", "tr.delT0", "tr.insP0", "tr.insPE", "tr.delP0", "tr.repP0", "tr.sty0", "tr.rmsty0"}
+)
+
+func coreFamilies() []family {
+	return []family{
+		{"obj", []string{"init.o"}, objCore},
+		{"arr", []string{"init.a"}, arrCore},
+		{"txt", []string{"init.t"}, txtCore},
+		{"cnt", []string{"init.c"}, cntCore},
+		{"tree", []string{"init.tr"}, treeCore},
+	}
+}
+
 func c01Scenarios(tier string) []*hist.Scenario {
 	var out []*hist.Scenario
-	for _, f := range families() {
-		for _, al := range pairs(f.ops) {
-			k, y := 2, 3
-			out = append(out, &hist.Scenario{
-				Name: fmt.Sprintf("c01/%s/%s/N2K%dY%d", f.name, strings.Join(al, "+"), k, y),
-				N:    2, Init: f.init, Alphabet: al, K: k, Y: y,
-				Cfg: hist.Config{Threshold: hist.Big, Interval: hist.Big},
-			})
-		}
+	big := hist.Config{Threshold: hist.Big, Interval: hist.Big}
+	add := func(fam, tag string, init, al []string, n, k, y, maxPer int) {
+		out = append(out, &hist.Scenario{
+			Name: fmt.Sprintf("c01/%s/%s/N%dK%dY%d%s", fam, strings.Join(al, "+"), n, k, y, tag),
+			N:    n, Init: init, Alphabet: al, K: k, Y: y, MaxPerClient: maxPer, Cfg: big,
+		})
 	}
-	// three clients, one edit each, every sync placement
-	for _, f := range families() {
-		for _, al := range pairs(f.ops) {
-			if tier == "quick" && len(al) == 2 {
-				continue
-			}
-			out = append(out, &hist.Scenario{
-				Name: fmt.Sprintf("c01/%s/%s/N3K3Y4", f.name, strings.Join(al, "+")),
-				N:    3, Init: f.init, Alphabet: al, K: 3, Y: 4, MaxPerClient: 1,
-				Cfg: hist.Config{Threshold: hist.Big, Interval: hist.Big},
-			})
-		}
-	}
-	if tier == "thorough" {
-		for _, f := range families() {
+	if tier == "quick" {
+		for _, f := range coreFamilies() {
 			for _, al := range pairs(f.ops) {
-				out = append(out, &hist.Scenario{
-					Name: fmt.Sprintf("c01/%s/%s/N2K3Y4", f.name, strings.Join(al, "+")),
-					N:    2, Init: f.init, Alphabet: al, K: 3, Y: 4,
-					Cfg: hist.Config{Threshold: hist.Big, Interval: hist.Big},
-				})
+				add(f.name, "", f.init, al, 2, 2, 3, 0)
 			}
 		}
-		// N = 4, 5: one edit per client, single kinds
-		for _, n := range []int{4, 5} {
-			for _, f := range families() {
-				for _, op := range f.ops {
-					out = append(out, &hist.Scenario{
-						Name: fmt.Sprintf("c01/%s/%s/N%dK%dY%d", f.name, op, n, n, n),
-						N:    n, Init: f.init, Alphabet: []string{op}, K: n, Y: n, MaxPerClient: 1,
-						Cfg: hist.Config{Threshold: hist.Big, Interval: hist.Big},
-					})
-				}
+		// three clients, one edit each, every sync placement (single kinds)
+		for _, f := range coreFamilies() {
+			for _, op := range f.ops {
+				add(f.name, "", f.init, []string{op}, 3, 3, 3, 1)
+			}
+		}
+		return out
+	}
+	for _, f := range families() {
+		for _, al := range pairs(f.ops) {
+			add(f.name, "", f.init, al, 2, 2, 4, 0)
+		}
+	}
+	for _, f := range families() {
+		for _, al := range pairs(f.ops) {
+			add(f.name, "", f.init, al, 3, 3, 4, 1)
+		}
+	}
+	for _, f := range coreFamilies() {
+		for _, al := range pairs(f.ops) {
+			add(f.name, "", f.init, al, 2, 3, 4, 0)
+		}
+	}
+	// N = 4, 5: one edit per client, single kinds
+	for _, n := range []int{4, 5} {
+		for _, f := range coreFamilies() {
+			for _, op := range f.ops {
+				add(f.name, "", f.init, []string{op}, n, n, n, 1)
 			}
 		}
 	}
